@@ -11,7 +11,7 @@ PROP = "C05"
 # key -> (type, expression)
 KEYS = {
     "name": "str", "path": "str", "ext": "str",
-    "size": "num", "uid": "num", "gid": "num", "hardlinks": "num", "inode": "num", "blocks": "num", "line_count": "num", "length(name)": "num", "size + 1": "num",
+    "size": "num", "uid": "num", "gid": "num", "hardlinks": "num", "inode": "num", "blocks": "num", "line_count": "num", "length(name)": "num", "size + 1": "num", "size*2": "num",
     "modified": "date", "created": "date",
     "day(modified)": "num", "month(modified)": "num", "year(modified)": "num",
 }
@@ -150,6 +150,12 @@ class Check:
         keys = gen_keys(rng)
         selected = [k["key"] for k in keys if rng.random() < 0.6]
         positional = [rng.random() < 0.3 for _ in keys]
+        for i_, k_ in enumerate(keys):
+            if k_["key"] == "size*2" and rng.random() < 0.7:
+                # an expression column is reliably addressed by its position in the select list
+                positional[i_] = True
+                if k_["key"] not in selected:
+                    selected.append(k_["key"])
         where = rng.choice([None, None, "size > 9", "size >= 10", "name != 'dup'"])
         # arrival order: sometimes adversarial w.r.t. the first key
         nm = gen.node_map(world)
@@ -305,8 +311,11 @@ class Check:
             bad = sorted_violation(seq, keys)
             if bad:
                 i, j = bad
+                byname = [k["key"] for jj, k in enumerate(keys) if not (case["positional"][jj] and k["key"] in sel)]
                 if any(" + " in k["key"] for k in keys):
                     sig = ["C05.sorted", "arithmetic_key_with_spaces", "-"]
+                elif "size*2" in byname:
+                    sig = ["C05.sorted", "arithmetic_key_written_out", "-"]
                 else:
                     sig = ["C05.sorted", keys[j]["key"], "desc" if keys[j]["desc"] else "asc"]
                 viols.append(Violation(PROP, "C05.sorted", sig,
